@@ -6,7 +6,7 @@
 # prints a one-line verdict and writes <worktree>/OUT/<m>/verified.json
 set -u
 wt="$1"; m="$2"; out="$wt/OUT/$m"
-export RUSTUP_TOOLCHAIN=stable-x86_64-unknown-linux-gnu CARGO_TARGET_DIR=/tmp/seedverify-target CARGO_NET_OFFLINE=true
+export RUSTUP_TOOLCHAIN=stable-x86_64-unknown-linux-gnu CARGO_TARGET_DIR=${SEED_TARGET:-/tmp/seedverify-target} CARGO_NET_OFFLINE=true
 cd "$wt" || exit 2
 git checkout -q -- . ; git clean -fdq -e OUT
 git apply "$out/patch.diff" || { echo "$wt $m: PATCH DOES NOT APPLY"; exit 1; }
